@@ -235,7 +235,33 @@ pub fn scenarios(thorough: bool) -> Vec<Scenario> {
     v.push(pair_conflict_scenario("pair-conflict-edit-vs-delete", 4, 3, &[8, 9, 2], if thorough { 5 } else { 4 },
         &[Op::Resolve(1, 0, 0), Op::Resolve(1, 0, 1), Op::Resolve(1, 1, 0), Op::Resolve(0, 0, 1), Op::Resolve(1, 1, 1)]));
     v.push(trio_scenario("trio", if thorough { 7 } else { 6 }));
+    v.push(long_chain_scenario("pair-long-chain", if thorough { 4 } else { 3 }, &[Op::Resolve(1, 0, 0), Op::Resolve(0, 0, 1)]));
     v
+}
+
+/// the comparison of revisions equals the stated rule (resolution markers lowest, then numeric index,
+/// then bytes of the printed identifier) on ALL ordered pairs of the constructor-reachable revisions
+pub fn order_pairs(rep: &mut Report, thorough: bool) {
+    let rs: Vec<Revision> = crate::props::c19::reachable(thorough).into_iter().map(|(r, _, _)| r).collect();
+    let key = |r: &Revision| -> (u8, u64, String) {
+        let s = r.to_string();
+        if r.is_resolved() { (0, 0, s) } else { (1, r.index() as u64, s) }
+    };
+    let mut n = 0u64;
+    let mut bad = 0;
+    for a in &rs {
+        for b in &rs {
+            n += 1;
+            let want = key(a).cmp(&key(b));
+            if a.cmp(b) != want && bad < 2 {
+                bad += 1;
+                rep.violations.push(Violation { property: "C05".into(), signature: "C05:revision-order-differs-from-stated-rule".into(), scenario: "order-pairs".into(), history: vec![],
+                    detail: json!({"input": {"a": a.to_string(), "b": b.to_string()}, "cmp": format!("{:?}", a.cmp(b)), "rule": format!("{:?}", want)}) });
+            }
+        }
+    }
+    rep.add_u64("evaluations", n);
+    rep.set("order_pairs", json!({"revisions": rs.len(), "ordered_pairs": n}));
 }
 
 pub fn run(thorough: bool) {
@@ -249,6 +275,7 @@ pub fn run(thorough: bool) {
         stop_on_violation: true,
     });
     tree_sweep(&mut rep, thorough);
+    order_pairs(&mut rep, thorough);
     rep.set("rule", json!("(P) a universe of revisions generated by the system's own constructors (two roots, update/delete/resolve children to depth 3, plus a chain crossing the 9->10 index boundary with a fork); EVERY subset up to the stated size (dangling parents and missing roots included) is inserted through add() in EVERY insertion order and through unvalidated_add+validate under 4 hash-iteration orders; leaves and winner must equal an independent reference (leaf = not a resolution marker, nobody's parent, ancestry reaches an index-1 parentless member; winner = max by (index, bytes of printed identifier)). (H) in every state of the explored replica histories every object's get_winner / get_conflicting / in_conflict equals the same reference computed from the tree dump."));
     finalize(&mut rep);
     rep.finish();
